@@ -72,6 +72,20 @@ def gen_plan(ch: Chooser, tier: str) -> dict[str, Any]:
                 actions.append({'t': t, 'do': 'start', 'op': f'op{i + 1}'})
             else:
                 break
+    if n_ops >= 3 and ch.bool(0.4):
+        # targeted history: the lowest operator is paused by two live blockers, one of which dies silently (its record
+        # expires) while the other keeps renewing: the survivor's record must stay, the lowest must stay paused
+        order = sorted(range(n_ops), key=lambda i: prios[i])
+        low, mid = order[0], order[1]
+        if prios[mid] == prios[order[2]] or prios[low] == prios[mid]:
+            prios[low], prios[mid] = 5, 7
+            operators[low]['priority'], operators[mid]['priority'] = 5, 7
+        actions[:] = [a for a in actions if a['do'] == 'start' and a['op'] in (f'op{low + 1}', f'op{mid + 1}', f'op{order[-1] + 1}')
+                      or a.get('op') not in (f'op{low + 1}', f'op{mid + 1}', f'op{order[-1] + 1}')]
+        for a in actions:
+            if a['do'] == 'start':
+                a['t'] = 0.0 if a['op'] != f'op{low + 1}' else ch.choice([0.0, 1.0])
+        actions.append({'t': round(ch.float(3.0, horizon * 0.6), 6), 'do': 'kill', 'op': f'op{mid + 1}'})
     objects = [{'kind': 'widgets', 'body': {'metadata': {'name': f'w{i}'}, 'spec': {'a': i}}}
                for i in range(ch.int(1, 2))]
     for k in range(ch.int(0, 4)):
@@ -166,6 +180,32 @@ def oracle(run: runner.Run, oc: Outcome) -> None:
     def active_at(actor: str, t: float) -> bool:
         return any(a <= t < b for a, b in streams.get(actor, []))
 
+    # ---- (3b) nobody removes the unexpired record of a peer that is running ----
+    by_ident = {o.spec.get('identity', o.actor): o for o in incs}
+    for t in run.transitions:
+        if t.rkey != rd.key or t.before is None or t.after is None or not common.is_operator_actor(run, t.actor):
+            continue
+        sb, sa = (t.before.get('status') or {}), (t.after.get('status') or {})
+        for who, rec in sb.items():
+            owner = by_ident.get(who)
+            if who in sa and sa[who] is not None or owner is None or owner.actor == t.actor or not isinstance(rec, dict):
+                continue
+            seen = _parse(rec.get('lastseen'))
+            expires = (seen if seen is not None else t.t) + float(rec.get('lifetime') or 60)
+            gone = min([x for x in (owner.t_killed, owner.exit[0] if owner.exit else None, owner.t_stop_requested)
+                        if x is not None], default=float('inf'))
+            if expires > t.t + 1.0 and gone > t.t and owner.t_start is not None and owner.t_start <= t.t:
+                # told apart: the remover was looking at an older state of the peering object (a delayed event) in which
+                # the record had not been renewed yet and was, by now, expired -- its blind removal hits the renewed one
+                looked = [str(e[6]) for e in trace if e[2] == 'peer-proc' and e[3] == t.actor and e[1] <= t.t and e[6] is not None]
+                view = snaps.get(looked[-1]) if looked else None
+                vrec = ((view or {}).get('status') or {}).get(who) if view is not None else None
+                vseen = _parse(vrec.get('lastseen')) if isinstance(vrec, dict) else None
+                stale_dead = vseen is not None and vseen + float(vrec.get('lifetime') or 60) <= t.t and vseen < (seen or 0.0)
+                oc.add('C13/record-lapsed', 'renewed-record-removed-on-stale-view' if stale_dead else 'live-record-removed-by-peer',
+                       f"{t.actor} removed the peering record of {who} at t={t.t:.3f} although {who} was running and its "
+                       f"record (last seen {rec.get('lastseen')}, lifetime {rec.get('lifetime')}) was valid until "
+                       f"t={expires:.3f}", actor=t.actor)
     for op in incs:
         actor = op.actor
         ident = op.spec.get('identity', actor)
